@@ -23,17 +23,17 @@ import (
 
 // Spec configures the scenario.
 type Spec struct {
-	Prop     string // "C01" or "C02" (prefix of violation signatures)
-	Chain    string
-	Stakes   []int64 // whole FX per bonded oracle (index 0..)
-	Extra    bool    // one more approved-but-unbonded oracle
-	Variants []string // subset of "A","B"
-	WrongN   bool    // offer the same-nonce / skip-nonce attempts
-	Execute  bool    // offer executeClaim
-	Members  bool    // offer bond / add-delegate / removal / unbond
-	Blocks   bool    // offer block boundaries (slashing with window 2)
-	MaxNonce uint64  // highest event nonce offered
-	Threshold int64  // if >0 lower the delegate threshold to this many FX
+	Prop      string // "C01" or "C02" (prefix of violation signatures)
+	Chain     string
+	Stakes    []int64  // whole FX per bonded oracle (index 0..)
+	Extra     bool     // one more approved-but-unbonded oracle
+	Variants  []string // subset of "A","B"
+	WrongN    bool     // offer the same-nonce / skip-nonce attempts
+	Execute   bool     // offer executeClaim
+	Members   bool     // offer bond / add-delegate / removal / unbond
+	Blocks    bool     // offer block boundaries (slashing with window 2)
+	MaxNonce  uint64   // highest event nonce offered
+	Threshold int64    // if >0 lower the delegate threshold to this many FX
 	// Rebond: narrowed alphabet around one oracle's full life cycle (vote, governance removal, 22 days, unbond,
 	// re-approval, re-bond, vote again) so that histories of that length come within the depth bound
 	Rebond bool
@@ -411,6 +411,9 @@ func (s *Spec) rebondOps(st *explore.State) []explore.Op {
 	for _, oi := range []int{vi, 0} {
 		if last := k.GetLastEventNonceByOracle(ctx, s.os[oi].Acct.Acc()); last+1 <= s.MaxNonce {
 			ops = append(ops, s.voteOp(oi, 1, "A"))
+			if oi == vi {
+				ops = append(ops, s.voteOp(oi, 1, "B")) // the competing claim for the same nonce
+			}
 		}
 	}
 	if k.IsProposalOracle(ctx, victim.Acct.Bech()) {
@@ -473,9 +476,16 @@ func (s *Spec) Check(st *explore.State) {
 	}
 	// at most one observed attestation per nonce
 	obsPer := map[uint64]int{}
+	votedFor := map[string]string{} // "nonce/oracle" -> claim hash the oracle's vote is recorded for
 	k.IterateAttestationAndClaim(ctx, func(att *cctypes.Attestation, claim cctypes.ExternalClaim) bool {
 		seen := map[string]bool{}
 		for _, v := range att.Votes {
+			key := fmt.Sprintf("%d/%s", claim.GetEventNonce(), v)
+			h := hex.EncodeToString(claim.ClaimHash())
+			if prev, ok := votedFor[key]; ok && prev != h {
+				st.Violate("one-vote-per-oracle-and-nonce", s.sig("oracle-voted-for-two-claims-of-one-nonce"), fmt.Sprintf("nonce %d: the vote of %s is recorded for claim %s and for claim %s", claim.GetEventNonce(), v, prev[:12], h[:12]))
+			}
+			votedFor[key] = h
 			if seen[v] {
 				st.Violate("distinct-voters", s.sig("oracle-counted-twice"), fmt.Sprintf("nonce %d: voter %s appears twice in %v", claim.GetEventNonce(), v, att.Votes))
 			}
